@@ -208,6 +208,8 @@ def render(t, st, names, _d=0):
         return 'iter(' + R(t[1]) + ')'
     if k == 'castto':
         return R(t[2])
+    if k == 'after':
+        return f'after{t[1]}(' + R(t[2]) + ')'
     if k == 'elem':
         return 'elem(' + R(t[1]) + ')'
     if k == 'found':
